@@ -16,6 +16,7 @@ import (
 	"os/exec"
 	"sort"
 	"strconv"
+	"strings"
 	"sync"
 	"testing"
 	"time"
@@ -266,9 +267,14 @@ func TestMain(m *testing.M) {
 	if cfg.Prop == "" {
 		os.Exit(m.Run())
 	}
-	if os.Getenv("VERIF_CHILD") != "" {
+	if ch := os.Getenv("VERIF_CHILD"); ch != "" && ch != "campaign" {
 		childMain()
 		return
+	}
+	// Process isolation: the campaign runs in a child process. A panic in a pool goroutine or a
+	// log.Fatalf of the engine kills only the child; the parent records the death as an observation.
+	if os.Getenv("VERIF_CHILD") == "" && os.Getenv("VERIF_NO_ISOLATION") == "" {
+		os.Exit(runIsolated())
 	}
 	c, ok := campaigns[cfg.Prop]
 	if !ok {
@@ -327,4 +333,90 @@ func parallel(n, w int, f func(i int)) {
 	}
 	close(ch)
 	wg.Wait()
+}
+
+// breadcrumb records the case about to be executed, so that a dead child can be attributed to it.
+func breadcrumb(desc any) {
+	if os.Getenv("VERIF_CHILD") != "campaign" {
+		return
+	}
+	b, _ := json.Marshal(desc)
+	os.WriteFile(cfg.Out+".current", b, 0o644)
+}
+
+func runIsolated() int {
+	self, err := os.Executable()
+	if err != nil {
+		fmt.Fprintln(os.Stderr, err)
+		return 3
+	}
+	os.Remove(cfg.Out)
+	os.Remove(cfg.Out + ".current")
+	cmd := exec.Command(self)
+	cmd.Env = append(os.Environ(), "VERIF_CHILD=campaign")
+	var buf tailBuffer
+	cmd.Stdout = &buf
+	cmd.Stderr = &buf
+	t0 := time.Now()
+	runErr := cmd.Run()
+	if _, statErr := os.Stat(cfg.Out); statErr == nil && runErr == nil {
+		os.Remove(cfg.Out + ".current")
+		return 0
+	}
+	// the child died without delivering a result
+	var cur any
+	if b, e := os.ReadFile(cfg.Out + ".current"); e == nil {
+		json.Unmarshal(b, &cur)
+	}
+	os.Remove(cfg.Out + ".current")
+	r := newResult(cfg.Prop)
+	r.Evaluations = 1
+	r.WallS = time.Since(t0).Seconds()
+	r.Rule = "campaign child process died"
+	r.Samples = []any{}
+	first := buf.firstPanicLine()
+	r.Findings = []Finding{{Kind: "crash", Clause: cfg.Prop + ".process_exit", Features: map[string]any{"how": first},
+		Text: fmt.Sprintf("the process running the campaign exited (%v): %s", runErr, first), Case: cur, Observed: buf.String()}}
+	b, _ := json.MarshalIndent(r, "", " ")
+	os.WriteFile(cfg.Out, b, 0o644)
+	return 0
+}
+
+// tailBuffer keeps the last 16 KiB written to it.
+type tailBuffer struct {
+	mu sync.Mutex
+	b  []byte
+}
+
+func (t *tailBuffer) Write(p []byte) (int, error) {
+	t.mu.Lock()
+	defer t.mu.Unlock()
+	t.b = append(t.b, p...)
+	if len(t.b) > 1<<14 {
+		t.b = t.b[len(t.b)-(1<<14):]
+	}
+	return len(p), nil
+}
+
+func (t *tailBuffer) String() string { t.mu.Lock(); defer t.mu.Unlock(); return string(t.b) }
+
+func (t *tailBuffer) firstPanicLine() string {
+	s := t.String()
+	for _, line := range strings.Split(s, "\n") {
+		if strings.HasPrefix(line, "panic:") || strings.Contains(line, "fatal") || strings.Contains(line, "Fatal") || strings.Contains(line, "failed to write") {
+			if len(line) > 200 {
+				line = line[:200]
+			}
+			return line
+		}
+	}
+	lines := strings.Split(strings.TrimSpace(s), "\n")
+	if len(lines) > 0 {
+		l := lines[len(lines)-1]
+		if len(l) > 200 {
+			l = l[:200]
+		}
+		return l
+	}
+	return ""
 }
